@@ -309,6 +309,15 @@ def fixed_len(t):
     """constant length of array-like terms"""
     if not isinstance(t, tuple) or not t:
         return None
+    if t[0] == "unwrap" and isinstance(t[1], tuple) and t[1] and t[1][0] == "call" and isinstance(t[1][1], str) and t[1][1].endswith("slice::ChunksExact<'a, T> as std::iter::Iterator>::next"):
+        # every item of `s.chunks_exact(n)` has exactly n elements
+        it = t[1][2][0]
+        n = 0
+        while isinstance(it, tuple) and it and it[0] == "phi" and it[4] is not None and n < 3:
+            it = it[4]
+            n += 1
+        if isinstance(it, tuple) and it and it[0] == "call" and it[1].endswith("::chunks_exact") and len(it[2]) == 2 and cint(it[2][1]) is not None:
+            return cint(it[2][1])
     if t[0] == "array":
         return len(t[1])
     if t[0] == "repeat":
@@ -401,11 +410,27 @@ def _len_bounded_old(t, facts, loop_inv):
     return False
 
 
+SEQ_NEXT_RX = re.compile(r"(slice::Iter<'a, T>|slice::IterMut<'a, T>|slice::ChunksExact<'a, T>|slice::Chunks<'a, T>|vec::IntoIter<T, A>|iter::Enumerate<I>|iter::Zip<A, B>|iter::Copied<I>|iter::Cloned<I>) as std::iter::Iterator>::next$")
+
+
 def loop_invariants(paths):
-    """phis p (init small const) such that every back edge of their loop establishes new_value <= len(X): then p <= len(X) always"""
+    """phis p (init small const) such that every back edge of their loop establishes new_value <= len(X): then p <= len(X) always;
+    and counters that advance by a small constant on every back edge of a loop driven by an iterator over an in-memory sequence
+    (a slice, its chunks, a Vec): the number of iterations is at most an in-memory length (< 2^48, stated assumption), so the counter
+    stays far below the integer range"""
     inv = set()
     backs = [p for p in paths if p.kind == "backedge"]
     for b in backs:
+        seq_driven = any(e[0] == "call" and SEQ_NEXT_RX.search(e[1]) and e[2] and isinstance(e[2][0], tuple) and e[2][0][0] == "phi" and e[2][0][2] == b.loop for e in b.trace)
+        if seq_driven:
+            for e in b.trace:
+                if e[0] == "phis" and e[2] == b.loop:
+                    for cell, ph in e[3]:
+                        nv = b.store.get(cell)
+                        if isinstance(ph, tuple) and ph[0] == "phi" and cint(ph[4]) is not None and cint(ph[4]) < SMALL and isinstance(nv, tuple) \
+                                and nv[:3] == ("bin", "Add", ph) and cint(nv[3]) is not None and 0 < cint(nv[3]) <= 4096 \
+                                and all(b2.store.get(cell) in (nv, ph) for b2 in backs if b2.loop == b.loop):
+                            inv.add(ph)
         f = facts_of(b.trace, len(b.trace))
         for e in b.trace:
             if e[0] != "loop":
